@@ -9,14 +9,16 @@ from . import common as C, sysrun as S, e2e
 HUNK = S.HUNK_RE
 
 
-def workdir_added(repo, base):
-    """(all, pure) added lines of the working tree relative to commit `base`, per file."""
+def workdir_hunks(repo, base):
+    """Hunks of the working tree relative to commit `base`, per file: [[old_count, new_start, new_count], …]
+    as plain `git diff -U0` prints them (bodies consumed by their counts); an untracked file is one
+    hunk adding every line."""
     rc, names, _ = repo.plain_git("diff", "--name-only", "-z", "--no-renames", base)
-    all_, pure = {}, {}
+    res = {}
     for p in [n for n in names.split("\0") if n]:
         rc, out, _ = repo.plain_git("-c", "core.quotePath=false", "diff", "-U0", "--no-color", "--no-renames", "--no-ext-diff",
                                     "--no-textconv", base, "--", p)
-        a, ins = set(), set()
+        hs = []
         lines = out.split("\n")
         i = 0
         while i < len(lines):
@@ -24,9 +26,7 @@ def workdir_added(repo, base):
             if m:
                 oc = int(m.group(2)) if m.group(2) is not None else 1
                 ns = int(m.group(3)); nc = int(m.group(4)) if m.group(4) is not None else 1
-                a.update(range(ns, ns + nc))
-                if oc == 0:
-                    ins.update(range(ns, ns + nc))
+                hs.append([oc, ns, nc])
                 i += 1
                 o, n = oc, nc
                 while i < len(lines) and (o > 0 or n > 0):
@@ -38,13 +38,14 @@ def workdir_added(repo, base):
                     i += 1
                 continue
             i += 1
-        all_[p], pure[p] = a, ins
+        if hs:
+            res[p] = hs
     # untracked files are not reported by git diff: a file that is not in `base`'s tree but exists in
     # the working directory is wholly an unstaged pure insertion (lines as Rust's str::lines counts them)
     rc, names, _ = repo.plain_git("ls-files", "-z", "--others", "--exclude-standard")
     import os as _os
     for p in [n for n in names.split("\0") if n]:
-        if p in all_:
+        if p in res:
             continue
         rc2, _o, _e = repo.plain_git("cat-file", "-e", f"{base}:{p}")
         if rc2 == 0:
@@ -55,8 +56,42 @@ def workdir_added(repo, base):
             continue
         n = len(data.split("\n")) - (1 if data.endswith("\n") else 0) if data else 0
         if n > 0:
-            all_[p] = set(range(1, n + 1)); pure[p] = set(range(1, n + 1))
+            res[p] = [[0, 1, n]]
+    return res
+
+
+def workdir_added(repo, base):
+    """(all, pure) added lines of the working tree relative to commit `base`, per file."""
+    all_, pure = {}, {}
+    for p, hs in workdir_hunks(repo, base).items():
+        a, ins = set(), set()
+        for oc, ns, nc in hs:
+            a.update(range(ns, ns + nc))
+            if oc == 0:
+                ins.update(range(ns, ns + nc))
+        all_[p], pure[p] = a, ins
     return all_, pure
+
+
+def replaced_committed_lines(repo, parent, sha):
+    """Per file: the commit line numbers that the commit `sha` adds AND that an unstaged hunk of the
+    working tree replaces offset for offset (the k-th added line of a hunk stands for the k-th line it
+    removes) — the lines `to_authorship_log_and_initial_working_log` credits to the commit under the
+    author of their modified working-tree version."""
+    added = S.added_lines(repo, parent, sha)
+    res = {}
+    for p, hs in workdir_hunks(repo, sha).items():
+        delta, got = 0, set()
+        for oc, ns, nc in hs:
+            if nc > 0:
+                for k in range(min(oc, nc)):
+                    c = ns + k + delta
+                    if c in added.get(p, set()):
+                        got.add(c)
+            delta += oc - nc
+        if got:
+            res[p] = got
+    return res
 
 
 def line_attrs_from_working_log(initial, checkpoints):
@@ -106,13 +141,13 @@ def requests_after_commit(repo, snap, parent, sha):
         if p not in have_entry:
             attrs.pop(p, None)
     committed = S.added_lines(repo, parent, sha) if parent else S.added_lines(repo, "4b825dc642cb6eb9a060e54bf8d69288fbee4904", sha)
-    un_all, un_pure = workdir_added(repo, sha)
+    hunks = workdir_hunks(repo, sha)
     note = repo.note(sha)
     new_initial = repo.initial(sha) or {"files": {}}
     reqs = []
     for p, las in sorted(attrs.items()):
         req = {"op": "s3_split", "attrs": [{"s": s, "e": e, "author": a} for (s, e, a) in las],
-               "committed": sorted(committed.get(p, [])), "unstaged": sorted(un_all.get(p, [])), "pure": sorted(un_pure.get(p, []))}
+               "committed": sorted(committed.get(p, [])), "hunks": hunks.get(p, [])}
         obs_c = {}
         if note:
             for (fp, h, rs) in note["entries"]:
